@@ -86,7 +86,54 @@ Theorem check_for_const_rejects_nested_errors : forall fuel node n bc v lg,
   check_for_const fuel node n = COk (mkCP (NBytecode (of_code bc)) (cp_params node)) n.
 Proof.
   intros fuel node n bc v lg Hr Hrun Hc. unfold check_for_const, cbind, resolve_or_panic.
-  rewrite Hr, Hrun. cbn [fst]. rewrite Hc. reflexivity.
+  rewrite Hr, Hrun. rewrite Hc, orb_true_r. reflexivity.
+Qed.
+
+(** An evaluation that asked for the clock is never frozen, whatever value it ended with: the refusal
+    is an ordinary error value that a match arm or a counting macro can absorb, so the value alone
+    does not tell (utils/clock.rs remembers the request; here it is a mark in the log). *)
+Theorem check_for_const_rejects_clock_requests : forall fuel node n bc v lg,
+  resolve (into_bytecode (cp_node node)) = Some bc ->
+  run fuel compile_env bc true O [] = (ROk v, lg) -> runtime_requested lg = true ->
+  check_for_const fuel node n = COk (mkCP (NBytecode (of_code bc)) (cp_params node)) n.
+Proof.
+  intros fuel node n bc v lg Hr Hrun Hc. unfold check_for_const, cbind, resolve_or_panic.
+  rewrite Hr, Hrun. rewrite Hc. reflexivity.
+Qed.
+
+(** the request is recorded exactly where the clock is refused: now() and the zero-parameter
+    timestamp() (which the dispatcher's null padding also selects for timestamp(null)), while
+    folding; every other call of these names does not depend on the clock at all *)
+Theorem clock_request_is_recorded : forall E this lg, folding E = true -> assoc #"now" (e_ufuncs E) = None ->
+  call_func E #"now" this [] lg = (ROk (VErr ERuntime), runtime_mark :: lg).
+Proof.
+  intros E this lg Hf Hu. unfold call_func. rewrite Hu. unfold mbind, note_clock. rewrite Hf. cbn [andb asks_clock_fn].
+  unfold folding in Hf. destruct (e_now E); [discriminate|]. reflexivity.
+Qed.
+
+Theorem runtime_mark_stays : forall e lg, runtime_requested lg = true -> runtime_requested (e :: lg) = true.
+Proof. intros e lg H. unfold runtime_requested in *. cbn [existsb]. rewrite H. apply orb_true_r. Qed.
+
+Theorem unasked_calls_ignore_the_clock : forall now now' name this args tn,
+  (asks_clock_fn name args = false -> call_default now name this args = call_default now' name this args) /\
+  (asks_clock_ty tn args = false -> construct_type now tn args = construct_type now' tn args).
+Proof.
+  intros now now' name this args tn. split.
+  - intros H. unfold call_default. destruct (negb (is_default_func name)); [reflexivity|].
+    change (default_arms now' name) with (default_arms now name). destruct (default_arms now name); [reflexivity|].
+    repeat match goal with |- (if ?c then _ else _) = (if ?c then _ else _) => destruct c eqn:?; [try reflexivity|] end;
+      try reflexivity.
+    unfold asks_clock_fn in H.
+    match goal with Hb : bytes_eqb name #"now" = true |- _ => rewrite Hb in H end.
+    destruct args; [discriminate H|reflexivity].
+  - intros H. unfold construct_type.
+    repeat match goal with |- (if ?c then _ else _) = (if ?c then _ else _) => destruct c eqn:?; [try reflexivity|] end;
+      try reflexivity.
+    unfold asks_clock_ty in H.
+    match goal with Hb : bytes_eqb tn #"timestamp" = true |- _ => rewrite Hb in H end. cbn [andb] in H.
+    destruct args as [|a [|b r]]; try discriminate H.
+    + destruct a; try discriminate H; reflexivity.
+    + reflexivity.
 Qed.
 
 (** [contains_err] finds an error at any depth of lists and maps. *)
